@@ -1,15 +1,15 @@
 import Spydr.IR.SepOps0
 namespace Spydr.IR
 
-theorem sep_removeDefinition (s : S) (off l d) : Sep s off → (Op.removeDefinition l d).above off →
-    Sep (step s (.removeDefinition l d)).1 off ∧ LowEq (step s (.removeDefinition l d)).1 s off := by sep_op
-theorem sep_setPorts (s : S) (off d ps) : Sep s off → (Op.setPorts d ps).above off →
-    Sep (step s (.setPorts d ps)).1 off ∧ LowEq (step s (.setPorts d ps)).1 s off := by sep_op
-theorem sep_removeChild (s : S) (off d i) : Sep s off → (Op.removeChild d i).above off →
-    Sep (step s (.removeChild d i)).1 off ∧ LowEq (step s (.removeChild d i)).1 s off := by sep_op
-theorem sep_setPins (s : S) (off p qs) : Sep s off → (Op.setPins p qs).above off →
-    Sep (step s (.setPins p qs)).1 off ∧ LowEq (step s (.setPins p qs)).1 s off := by sep_op
-theorem sep_connectOuter (s : S) (off w i q pos) : Sep s off → (Op.connectOuter w i q pos).above off →
-    Sep (step s (.connectOuter w i q pos)).1 off ∧ LowEq (step s (.connectOuter w i q pos)).1 s off := by sep_op
+theorem sep_removeDefinition (s : S) (R : OId → Prop) (l d) : Sep s R → (Op.removeDefinition l d).inside R →
+    Sep (step s (.removeDefinition l d)).1 R ∧ OutEq (step s (.removeDefinition l d)).1 s R := by sep_op
+theorem sep_setPorts (s : S) (R : OId → Prop) (d ps) : Sep s R → (Op.setPorts d ps).inside R →
+    Sep (step s (.setPorts d ps)).1 R ∧ OutEq (step s (.setPorts d ps)).1 s R := by sep_op
+theorem sep_removeChild (s : S) (R : OId → Prop) (d i) : Sep s R → (Op.removeChild d i).inside R →
+    Sep (step s (.removeChild d i)).1 R ∧ OutEq (step s (.removeChild d i)).1 s R := by sep_op
+theorem sep_setPins (s : S) (R : OId → Prop) (p qs) : Sep s R → (Op.setPins p qs).inside R →
+    Sep (step s (.setPins p qs)).1 R ∧ OutEq (step s (.setPins p qs)).1 s R := by sep_op
+theorem sep_connectOuter (s : S) (R : OId → Prop) (w i q pos) : Sep s R → (Op.connectOuter w i q pos).inside R →
+    Sep (step s (.connectOuter w i q pos)).1 R ∧ OutEq (step s (.connectOuter w i q pos)).1 s R := by sep_op
 
 end Spydr.IR
